@@ -78,15 +78,16 @@ class Report:
             if v["key"] in seen_keys:
                 continue
             seen_keys.add(v["key"])
-            if v["key"] in known:
-                listed.append((v, known[v["key"]]))
+            nk = v["key"].replace("@nostd", "")
+            if nk in known:
+                listed.append((v, known[nk]))
             else:
                 unlisted.append(v)
         out_lines = []
         for v, e in listed:
             out_lines.append("KNOWN-FINDING: property=%s %s [%s] at %s" % (self.pid, e.get("what", v["msg"]), v["key"], v.get("loc")))
         # stale known entries (listed but no longer reported) are informational only
-        stale = [k for k in known if k not in seen_keys]
+        stale = [k for k in known if k not in {x.replace("@nostd", "") for x in seen_keys}]
         for k in stale:
             out_lines.append("note: known finding no longer reported (fixed?): %s" % k)
         rc = 0
